@@ -538,7 +538,7 @@ LAW_CLASSES = {
     'basename-drive-like': {'parent_append': _sig_drive_err},
     # every operation that rebuilds the path from its suffix raises (or reads the suffix as an absolute path)
     'relative-suffix-drive-like': {'idempotent': _sig_reparsed, 'json_rt': _sig_reparsed, 'stripext_addext': _sig_reparsed,
-                                   'parent_append': _sig_drive_err, 'normalised': _sig_abs_suffix},
+                                   'parent_append': _sig_reparsed, 'normalised': _sig_abs_suffix},
     # the doubled separator survives; parent().append(basename()) gives the single-slash spelling
     'double-slash-after-drive': {'normalised': _sig_dslash_kept, 'parent_append': _sig_dslash_single},
 }
@@ -775,7 +775,9 @@ def stage_oracle_pairs(rep, rng, n):
             bdrive, brest = ntpath.splitdrive(base.suffix)
             joined = posixpath.normpath(posixpath.join(base.suffix, s.replace('\\', '/')))
             jcls = ('relative-suffix-drive-like',) if (base.root.name != 'absolute' and re.match(r'^[^/]:', joined)) else ()
-            depth = len([c for c in brest.split('/') if c])
+            # components below the root: a drive prefix is not one of them - but only an ABSOLUTE path has a drive (the first
+            # component 'a:' of a relative base is an ordinary directory name for the walk)
+            depth = len([c for c in (brest if base.root.name == 'absolute' else base.suffix).split('/') if c])
             results, errors = {}, {}
             for how, f in (('ctor', lambda: cls(s, base)), ('append', lambda: base.append(s))):
                 try:
